@@ -777,15 +777,16 @@ func (d *Deserializer) ReadVariableByteSlice(slice *[]byte, lenType SeriLengthPr
 		d.err = errProducer(ierrors.Wrapf(ErrDeserializationLengthMinNotReached, "denoted %d bytes, min required %d ", sliceLength, minLen))
 	}
 
-	dest := make([]byte, sliceLength)
-	if sliceLength == 0 {
-		*slice = dest
+	// the denoted length is untrusted input: make sure that the data is actually there before allocating memory for it
+	if len(d.src[d.offset:]) < sliceLength {
+		d.err = errProducer(ErrDeserializationNotEnoughData)
 
 		return d
 	}
 
-	if len(d.src[d.offset:]) < sliceLength {
-		d.err = errProducer(ErrDeserializationNotEnoughData)
+	dest := make([]byte, sliceLength)
+	if sliceLength == 0 {
+		*slice = dest
 
 		return d
 	}
